@@ -384,6 +384,15 @@ class Cluster:
         if ev == "move_leader":
             if self.log(e["topic"], e["partition"]) is not None and e["to"] in self.nodes:
                 self.move_leader(e["topic"], e["partition"], e["to"])
+        elif ev == "leader_gone":
+            # leader election in progress: metadata reports leader -1 / LEADER_NOT_AVAILABLE until `back_at`
+            pl = self.log(e["topic"], e["partition"])
+            if pl is not None and pl.leader != -1:
+                to = e.get("to", pl.leader)
+                to = to if to in self.nodes else pl.leader
+                self.move_leader(e["topic"], e["partition"], -1)
+                pl.elect_to = to
+                self.loop.call_at(float(e["back_at"]), self._elect, pl)
         elif ev == "node_down":
             self.node_down(e["node"], e.get("blackhole", False))
         elif ev == "node_up":
@@ -402,9 +411,18 @@ class Cluster:
         elif ev == "call":
             e["fn"]()
 
+    def _elect(self, pl):
+        if pl.leader == -1:
+            pl.prev_leader = -1
+            pl.leader = pl.elect_to
+            pl._wake()
+
     def make_quiet(self):
         """After this, no fault directive or environment event fires; nodes come back."""
         self.quiet = True
+        for ps in self.topics.values():
+            for pl in ps:
+                self._elect(pl)
         for n in self.nodes.values():
             if not n.up:
                 self.node_up(n.node_id)
@@ -661,8 +679,6 @@ class Cluster:
                 for pl in ps:
                     leader = pl.prev_leader if stale else pl.leader
                     perr = 0
-                    if not stale and not self.nodes[leader].up:
-                        pass    # brokers keep reporting the last known leader until an election
                     if leader == -1:
                         perr = LEADER_NOT_AVAILABLE
                     p = {"error": perr, "partition": pl.partition, "leader": leader,
